@@ -183,6 +183,11 @@ def run(ctx):
             msg = compare_vecs(L, vecs)
             if msg:
                 mism.append({"routine": what, "M": M.tolist(), "param": par, "detail": msg})
+                # the model's vectors are the ones whose reconstruction bounds are theorems (pivot and threshold decisions are
+                # away from ties here): different vectors on a concrete matrix are a concrete failing input
+                spec_fail.append((("linalg_utils" if what == "jax" else "pyscf_interface") + ".modified_cholesky",
+                                  "the vectors are those of the pivoted Cholesky recursion (exact at the rank, element-wise bound at the threshold)",
+                                  {"M": M.tolist(), "parameter": par, "difference": msg[:400]}))
 
     # ---- differentiability of the JAX routine (implementation vs identity / finite differences)
     nder = 8 if ctx.tier == "quick" else 60
